@@ -7,7 +7,9 @@ helper lemmas for `EAO/Properties/C16Window.lean`: a wrapper WITH a window again
   its `start` / `end` are set to the intersection (`FlatOf`, `buildTop_flatOf`, `buildList_flat`); the dates a user writes
   for the flat asset (`flatWinD`: Python's `max` / `min` of the two pairs of dates) stand for that intersection;
 * the flat side, on finished problems: the structured asset at ANY position of the portfolio (`outer ++ [structured] ++ rest`),
-  integrality (`boolVars`), nodal rows at outer nodes, dispatch of the outer assets and of the wrapper.
+  integrality (`boolVars`), nodal rows at outer nodes, dispatch of the outer assets and of the wrapper;
+* full flattening: `flattenAll` (every structure opened at any depth, scaled assets stay objects), the tree-level condition
+  `treeSepOk`, and `flattenAll_same` (induction over the object tree on `structured_flat_same`).
 -/
 namespace EAO.StructWinFlat
 open EAO EAO.Scaled EAO.Structured EAO.WrapWindow EAO.C16 EAO.ScaleBuild
@@ -630,5 +632,273 @@ theorem skip_of_check (inner : List AssetProblem) (ext skip : List String) (h : 
   rcases this with h1 | h1
   · exact absurd h1 he
   · exact h1
+
+/-! ## full flattening of a portfolio of objects -/
+
+/-- dates (with zone) standing for a window of instants -/
+def awareWin (w : Win) : WinD := (w.1.map WDate.aware, w.2.map WDate.aware)
+
+theorem winI_awareWin (env : Env) (w : Win) : env.winI (awareWin w) = w := by
+  obtain ⟨s, e⟩ := w
+  cases s <;> cases e <;> rfl
+
+mutual
+/-- the flat objects of the object `t` whose current window is `cur`: every structure is opened, at any depth; a leaf or a
+    scaled asset stays ONE object, with `start` / `end` set to dates standing for `cur` (its own window clipped by the windows
+    of all the structures that were opened around it) -/
+def flattenTree (env : Env) : WTree ε → Win → List (WTree ε)
+  | .leaf _ b, cur => [.leaf (awareWin cur) b]
+  | .scaled _ p base, cur => [.scaled (awareWin cur) p base]
+  | .structured _ _ _ inner, cur => flattenList env inner cur
+def flattenList (env : Env) : List (WTree ε) → Win → List (WTree ε)
+  | [], _ => []
+  | c :: cs, cur => flattenTree env c (clip (env.winI c.win) cur) ++ flattenList env cs cur
+end
+
+/-- **full flattening** of a top-level portfolio of objects: all structured nodes opened, scaled nodes stay objects -/
+def flattenAll (env : Env) (pf : List (WTree ε)) : List (WTree ε) := flattenList env pf (none, none)
+
+/-- node list of the problem the object builds on the window `cur` -/
+def builtNodes (env : Env) (t : WTree ε) (cur : Win) : List String :=
+  match buildTree env t cur with
+  | .ok P => P.nodes
+  | .error _ => []
+
+/-- the problem the object builds has its dispatch rows at its own nodes -/
+def builtDisp (env : Env) (t : WTree ε) (cur : Win) : Bool :=
+  match buildTree env t cur with
+  | .ok P => dispOwn P
+  | .error _ => true
+
+mutual
+/-- every node name that occurs in the object: the nodes of the leaves and scaled assets, the external nodes of the structures -/
+def allNodes (env : Env) : WTree ε → Win → List String
+  | .leaf w b, cur => builtNodes env (.leaf w b) cur
+  | .scaled w p base, cur => builtNodes env (.scaled w p base) cur
+  | .structured _ _ ext inner, cur => ext ++ allNodesL env inner cur
+def allNodesL (env : Env) : List (WTree ε) → Win → List String
+  | [], _ => []
+  | c :: cs, cur => allNodes env c (clip (env.winI c.win) cur) ++ allNodesL env cs cur
+end
+
+/-- no inner node of the structure (node of a wrapped problem that is not external) is among `others` -/
+def nodesSepOk (others : List String) (inner : List AssetProblem) (ext : List String) : Bool :=
+  (portfolioNodes inner).all fun n => !others.contains n || ext.contains n
+
+mutual
+/-- the separation condition below one object; `others` = the node names that occur anywhere outside the object.
+    Leaf / scaled asset: dispatch rows at own nodes.  Structure: its inner node names (nodes of the wrapped problems that are
+    not external) are neither among `others` nor skipped, and the condition holds for every wrapped object, with the node
+    names of all its siblings added to `others`. -/
+def sepTree (env : Env) (skip : List String) : WTree ε → Win → List String → Bool
+  | .leaf w b, cur, _ => builtDisp env (.leaf w b) cur
+  | .scaled w p base, cur, _ => builtDisp env (.scaled w p base) cur
+  | .structured _ _ ext inner, cur, others =>
+    (match buildList env inner cur with
+     | .ok ps => nodesSepOk others ps ext && skipOk ps ext skip
+     | .error _ => true) && sepList env skip inner cur others
+def sepList (env : Env) (skip : List String) : List (WTree ε) → Win → List String → Bool
+  | [], _, _ => true
+  | c :: cs, cur, others =>
+    sepTree env skip c (clip (env.winI c.win) cur) (others ++ allNodesL env cs cur) &&
+    sepList env skip cs cur (others ++ allNodes env c (clip (env.winI c.win) cur))
+end
+
+/-- **the tree-level condition** (decidable: evaluated on the problems the objects build): for every structure at any depth,
+    the inner node names are used nowhere outside that structure — not by a sibling, not by an object inside a sibling, not
+    by an object next to an enclosing structure — and are not skipped; every leaf and scaled asset has its dispatch rows at
+    its own nodes -/
+def treeSepOk (env : Env) (skip : List String) (pf : List (WTree ε)) : Bool := sepList env skip pf (none, none) []
+
+/-- the other problems of the portfolio while an object is opened: dispatch at own nodes, node names among `others` -/
+def Ctx (others : List String) (outer rest : List AssetProblem) : Prop :=
+  (∀ a ∈ outer ++ rest, DispAtOwnNodes a) ∧ ∀ a ∈ outer ++ rest, ∀ n ∈ a.nodes, n ∈ others
+
+theorem ctx_right {others extra : List String} {outer mid rest : List AssetProblem} (h : Ctx others outer rest)
+    (hd : ∀ a ∈ mid, DispAtOwnNodes a) (hn : ∀ a ∈ mid, ∀ n ∈ a.nodes, n ∈ extra) :
+    Ctx (others ++ extra) outer (mid ++ rest) := by
+  constructor
+  · intro a ha
+    simp only [List.mem_append] at ha
+    rcases ha with ha | ha | ha
+    · exact h.1 a (List.mem_append.mpr (Or.inl ha))
+    · exact hd a ha
+    · exact h.1 a (List.mem_append.mpr (Or.inr ha))
+  · intro a ha n hna
+    simp only [List.mem_append] at ha
+    rcases ha with ha | ha | ha
+    · exact List.mem_append.mpr (Or.inl (h.2 a (List.mem_append.mpr (Or.inl ha)) n hna))
+    · exact List.mem_append.mpr (Or.inr (hn a ha n hna))
+    · exact List.mem_append.mpr (Or.inl (h.2 a (List.mem_append.mpr (Or.inr ha)) n hna))
+
+theorem ctx_left {others extra : List String} {outer mid rest : List AssetProblem} (h : Ctx others outer rest)
+    (hd : ∀ a ∈ mid, DispAtOwnNodes a) (hn : ∀ a ∈ mid, ∀ n ∈ a.nodes, n ∈ extra) :
+    Ctx (others ++ extra) (outer ++ mid) rest := by
+  constructor
+  · intro a ha
+    simp only [List.mem_append] at ha
+    rcases ha with (ha | ha) | ha
+    · exact h.1 a (List.mem_append.mpr (Or.inl ha))
+    · exact hd a ha
+    · exact h.1 a (List.mem_append.mpr (Or.inr ha))
+  · intro a ha n hna
+    simp only [List.mem_append] at ha
+    rcases ha with (ha | ha) | ha
+    · exact List.mem_append.mpr (Or.inl (h.2 a (List.mem_append.mpr (Or.inl ha)) n hna))
+    · exact List.mem_append.mpr (Or.inr (hn a ha n hna))
+    · exact List.mem_append.mpr (Or.inl (h.2 a (List.mem_append.mpr (Or.inr ha)) n hna))
+
+/-- what the induction carries: the built problems `ps` and the problems `F` of the flat objects have dispatch at own nodes
+    and node names among `all`; in every portfolio whose other problems are separated, putting `F` for `ps` gives the same
+    problem -/
+def FlatGood (env : Env) (skip others : List String) (flatObjs : List (WTree ε)) (ps : List AssetProblem)
+    (all : List String) : Prop :=
+  (∀ a ∈ ps, DispAtOwnNodes a) ∧ (∀ a ∈ ps, ∀ n ∈ a.nodes, n ∈ all) ∧
+  ∃ F, ListRel (fun f q => buildTop env f = .ok q) flatObjs F ∧ (∀ a ∈ F, DispAtOwnNodes a) ∧
+    (∀ a ∈ F, ∀ n ∈ a.nodes, n ∈ all) ∧
+    ∀ outer rest, Ctx others outer rest →
+      SameProblem (assemble (outer ++ ps ++ rest) env.g.idx skip) (assemble (outer ++ F ++ rest) env.g.idx skip)
+
+/-- a leaf or a scaled asset: one object, re-dated -/
+theorem atom_good (env : Env) (skip others : List String) (t : WTree ε) (cur : Win) (P : AssetProblem)
+    (hs : builtDisp env t cur = true) (hb : buildTree env t cur = .ok P) :
+    FlatGood env skip others [t.setWin (awareWin cur)] [P] (builtNodes env t cur) := by
+  unfold builtDisp at hs; rw [hb] at hs
+  have hd : ∀ a ∈ [P], DispAtOwnNodes a := by
+    intro a ha; rw [List.mem_singleton.mp ha]; exact dispAtOwnNodes_of_check P hs
+  have hn : ∀ a ∈ [P], ∀ n ∈ a.nodes, n ∈ builtNodes env t cur := by
+    intro a ha n hna; rw [List.mem_singleton.mp ha] at hna
+    unfold builtNodes; rw [hb]; exact hna
+  refine ⟨hd, hn, [P], .cons ?_ .nil, hd, hn, fun outer rest _ => SameProblem.refl _⟩
+  unfold buildTop
+  rw [win_setWin, buildTree_setWin, winI_awareWin, hb]
+
+mutual
+theorem sepTree_good (env : Env) (skip : List String) : ∀ (t : WTree ε) (cur : Win) (others : List String) (P : AssetProblem),
+    sepTree env skip t cur others = true → buildTree env t cur = .ok P →
+    FlatGood env skip others (flattenTree env t cur) [P] (allNodes env t cur)
+  | .leaf w b, cur, others, P, hs, hb => by
+    rw [sepTree] at hs; rw [flattenTree, allNodes]
+    exact atom_good env skip others (.leaf w b) cur P hs hb
+  | .scaled w p base, cur, others, P, hs, hb => by
+    rw [sepTree] at hs; rw [flattenTree, allNodes]
+    exact atom_good env skip others (.scaled w p base) cur P hs hb
+  | .structured w name ext inner, cur, others, P, hs, hb => by
+    rw [buildTree] at hb
+    rw [sepTree] at hs
+    cases hl : buildList env inner cur with
+    | error e => rw [hl] at hb; cases hb
+    | ok ps =>
+      rw [hl] at hb hs
+      simp only [Bool.and_eq_true] at hs
+      obtain ⟨⟨hsep, hskip⟩, hsl⟩ := hs
+      cases hb
+      obtain ⟨hd, hn, F, hF, hFd, hFn, hsame⟩ := sepList_good env skip inner cur others ps hsl hl
+      rw [flattenTree, allNodes]
+      refine ⟨?_, ?_, F, hF, hFd, fun a ha n hna => List.mem_append.mpr (Or.inr (hFn a ha n hna)), ?_⟩
+      · intro a ha; rw [List.mem_singleton.mp ha]; exact structured_dispAtOwnNodes name ext ps env.g.idx
+      · intro a ha n hna; rw [List.mem_singleton.mp ha] at hna
+        exact List.mem_append.mpr (Or.inl hna)
+      · intro outer rest hctx
+        refine (structured_flat_same name ext outer ps rest env.g.idx skip hctx.1 hd ?_
+          (skip_of_check ps ext skip hskip)).trans (hsame outer rest hctx)
+        intro a ha n hna hni
+        have := List.all_eq_true.mp hsep n hni
+        simp only [List.contains_eq_mem, Bool.or_eq_true, Bool.not_eq_true', decide_eq_false_iff_not,
+          decide_eq_true_eq] at this
+        rcases this with h1 | h1
+        · exact absurd (hctx.2 a ha n hna) h1
+        · exact h1
+theorem sepList_good (env : Env) (skip : List String) : ∀ (cs : List (WTree ε)) (cur : Win) (others : List String)
+    (ps : List AssetProblem), sepList env skip cs cur others = true → buildList env cs cur = .ok ps →
+    FlatGood env skip others (flattenList env cs cur) ps (allNodesL env cs cur)
+  | [], cur, others, ps, _, hb => by
+    rw [buildList] at hb; cases hb
+    rw [flattenList]
+    exact ⟨fun a ha => absurd ha (by simp), fun a ha => absurd ha (by simp), [], .nil, fun a ha => absurd ha (by simp),
+      fun a ha => absurd ha (by simp), fun outer rest _ => SameProblem.refl _⟩
+  | c :: cs, cur, others, ps, hs, hb => by
+    rw [buildList] at hb
+    rw [sepList] at hs
+    simp only [Bool.and_eq_true] at hs
+    obtain ⟨hs1, hs2⟩ := hs
+    cases hc : buildTree env c (clip (env.winI c.win) cur) with
+    | error e => rw [hc] at hb; cases hb
+    | ok Pc =>
+      rw [hc] at hb
+      cases hl : buildList env cs cur with
+      | error e => rw [hl] at hb; cases hb
+      | ok pcs =>
+        rw [hl] at hb
+        cases hb
+        obtain ⟨hd1, hn1, F1, hF1, hFd1, hFn1, hsame1⟩ := sepTree_good env skip c _ _ Pc hs1 hc
+        obtain ⟨hd2, hn2, F2, hF2, hFd2, hFn2, hsame2⟩ := sepList_good env skip cs cur _ pcs hs2 hl
+        rw [flattenList, allNodesL]
+        refine ⟨?_, ?_, F1 ++ F2, listRel_append_mk hF1 hF2, ?_, ?_, ?_⟩
+        · intro a ha
+          rcases List.mem_cons.mp ha with h | h
+          · exact hd1 a (by rw [h]; simp)
+          · exact hd2 a h
+        · intro a ha n hna
+          rcases List.mem_cons.mp ha with h | h
+          · exact List.mem_append.mpr (Or.inl (hn1 a (by rw [h]; simp) n hna))
+          · exact List.mem_append.mpr (Or.inr (hn2 a h n hna))
+        · intro a ha
+          rcases List.mem_append.mp ha with h | h
+          · exact hFd1 a h
+          · exact hFd2 a h
+        · intro a ha n hna
+          rcases List.mem_append.mp ha with h | h
+          · exact List.mem_append.mpr (Or.inl (hFn1 a h n hna))
+          · exact List.mem_append.mpr (Or.inr (hFn2 a h n hna))
+        · intro outer rest hctx
+          have h1 := hsame1 outer (pcs ++ rest) (ctx_right hctx hd2 hn2)
+          have h2 := hsame2 (outer ++ F1) rest (ctx_left hctx hFd1 hFn1)
+          have e1 : outer ++ (Pc :: pcs) ++ rest = outer ++ [Pc] ++ (pcs ++ rest) := by simp
+          have e2 : outer ++ F1 ++ (pcs ++ rest) = (outer ++ F1) ++ pcs ++ rest := by simp
+          have e3 : outer ++ (F1 ++ F2) ++ rest = (outer ++ F1) ++ F2 ++ rest := by simp
+          rw [e1, e3]
+          rw [e2] at h1
+          exact h1.trans h2
+end
+
+/-- a top-level portfolio is built like the inner portfolio of a wrapper without window -/
+theorem buildList_top (env : Env) {pf : List (WTree ε)} {ps : List AssetProblem}
+    (h : ListRel (fun f q => buildTop env f = .ok q) pf ps) : buildList env pf (none, none) = .ok ps := by
+  induction h with
+  | nil => rw [buildList]
+  | cons h1 _ ih =>
+    unfold buildTop at h1
+    rw [buildList, clip_none_wrapper, h1, ih]
+
+/-- **full flattening, finished**: under the tree-level condition the flat objects build, and the assembled portfolios are the
+    same problem -/
+theorem flattenAll_same (env : Env) (skip : List String) (pf : List (WTree ε)) (hsep : treeSepOk env skip pf = true)
+    (ps : List AssetProblem) (hps : ListRel (fun f q => buildTop env f = .ok q) pf ps) :
+    ∃ ps', ListRel (fun f q => buildTop env f = .ok q) (flattenAll env pf) ps' ∧
+      SameProblem (assemble ps env.g.idx skip) (assemble ps' env.g.idx skip) := by
+  obtain ⟨_, _, F, hF, _, _, hsame⟩ := sepList_good env skip pf (none, none) [] ps hsep (buildList_top env hps)
+  refine ⟨F, hF, ?_⟩
+  have := hsame [] [] ⟨fun a ha => absurd ha (by simp), fun a ha => absurd ha (by simp)⟩
+  simpa using this
+
+/-- other dates standing for the same instants build the same problem -/
+theorem buildTop_redate (env : Env) (f : WTree ε) (w : WinD) (h : env.winI w = env.winI f.win) :
+    buildTop env (f.setWin w) = buildTop env f := by
+  unfold buildTop
+  rw [win_setWin, buildTree_setWin, h]
+
+/-- `f'` is the object `f` with `start` / `end` written as other dates standing for the same instants -/
+def SameDates (env : Env) (f f' : WTree ε) : Prop := ∃ w : WinD, f' = f.setWin w ∧ env.winI w = env.winI f.win
+
+theorem listRel_redate (env : Env) {fs fs' : List (WTree ε)} (h : ListRel (SameDates env) fs fs') {ps : List AssetProblem}
+    (hps : ListRel (fun f q => buildTop env f = .ok q) fs ps) : ListRel (fun f q => buildTop env f = .ok q) fs' ps := by
+  induction h generalizing ps with
+  | nil => cases hps; exact .nil
+  | cons h1 _ ih =>
+    cases hps with
+    | cons hp hr =>
+      obtain ⟨w, rfl, hw⟩ := h1
+      exact .cons (by rw [buildTop_redate env _ w hw]; exact hp) (ih hr)
 
 end EAO.StructWinFlat
